@@ -221,8 +221,10 @@ static int stub_script(const uscxml_ctx *ctx, const char *src, const char *conte
 static int stub_invoke(const uscxml_ctx *ctx, const uscxml_state *s, const uscxml_elem_invoke *inv, unsigned char uninvoke) {
   g_calls = 1;
   __CPROVER_assert(s >= &USCXML_MACHINE.states[0] && s < &USCXML_MACHINE.states[0] + NS, "C04.callback: invoke receives a state of the machine");
-  __CPROVER_assert((ctx->flags & USCXML_CTX_TOP_LEVEL_FINAL) || ctx->dequeue_internal == 0 || g_int_last_null,
-                   "C04.order: invocations are started and cancelled only when the internal queue has answered empty (end of the macrostep), or when the machine completes");
+  /* only STARTING is pinned to the end of the macrostep: the Recommendation cancels an invocation when its state is exited,
+     the emitted code at the next stable point - either is accepted */
+  __CPROVER_assert(uninvoke || ctx->dequeue_internal == 0 || g_int_last_null,
+                   "C04.order: an invocation is started only when the internal queue has answered empty (end of the macrostep)");
   return nondet_err();
 }
 
